@@ -354,6 +354,9 @@ impl Runner {
         Ok(Runner { k, names: keycode_names(), seen: 0, vt: 0, out: vec![], ms_elapsed: 0 })
     }
     fn collect(&mut self) {
+        self.collect_tag("")
+    }
+    fn collect_tag(&mut self, tag: &str) {
         let evs = &self.k.kbd_out.outputs.events;
         let mut items = vec![];
         for e in &evs[self.seen..] {
@@ -363,7 +366,7 @@ impl Runner {
         }
         self.seen = evs.len();
         if !items.is_empty() {
-            self.out.push(format!("@{} {}", self.vt, items.join(" ")));
+            self.out.push(format!("@{}{} {}", self.vt, tag, items.join(" ")));
         }
     }
     pub fn tick(&mut self) {
@@ -374,7 +377,8 @@ impl Runner {
     pub fn input(&mut self, code: u16, v: KeyValue) {
         let osc = OsCode::from_u16(code).expect("harness: not an OsCode");
         let _ = self.k.handle_input_event(&KeyEvent { code: osc, value: v });
-        self.collect();
+        // what a repeat event emits is tagged, so that it can be told from what a tick emits
+        self.collect_tag(if v == KeyValue::Repeat { "R" } else { "" });
     }
     pub fn fake(&mut self, a: u8, x: u8, y: u16) {
         let act = match a {
